@@ -20,6 +20,7 @@
   `rets` (all returns that were averaged into an action's `V`) and `budget` are ghost fields.
 -/
 import AITB.Model.Num
+import AITB.Gen.C19
 namespace AITB.Tree
 
 abbrev Key := Nat × Nat
@@ -53,6 +54,10 @@ structure Mdl where
       `some ε`: any action whose score is within `ε` of it is accepted (used by the driver only to recognise runs in
       which rounding of `V` decided a near-tie) -/
   uctSlack : Option Rat
+  /-- `sampleAction(a, key, horizon)` tests `a >= graph_.children.size()` before indexing `graph_.children[a]` and starts
+      from scratch in that case (repaired form, fixes/C19-3), or indexes unconditionally (as first read: on a planner that
+      has not been called yet the vector is empty — undefined behaviour, although the documentation promises a restart) -/
+  advGuard : Bool := false
   /-- rPOMCP only: `UseEntropy` (negative-entropy knowledge measure) instead of max-of-belief -/
   entropy : Bool := false
   /-- rPOMCP with entropy only: `p * log(p)` for `p = c / n` as the double the code computes (`log` is not
@@ -239,7 +244,7 @@ inductive Op where
 
 def Tree.withBudget (t : Tree) (b : Nat) : Tree := { t with budget := if t.budget < b then b else t.budget }
 
-/-- the tree the simulations of this call start from (`none`: `graph_.children[a]` out of range) -/
+/-- the tree the simulations of this call start from (`none`: `graph_.children[a]` indexed out of range: undefined behaviour) -/
 def prepare (m : Mdl) (t : Tree) : Op → Option (Tree × Nat × Nat)
   | .fresh parts nA H iters => some (Tree.fresh parts nA (H + m.overrun), H, iters)
   | .adv a k parts nA H iters =>
@@ -249,7 +254,7 @@ def prepare (m : Mdl) (t : Tree) : Op → Option (Tree × Nat × Nat)
         | none => none
         | some t' => some (t'.withBudget (H + m.overrun), H, iters)
       else some (Tree.fresh parts nA (H + m.overrun), H, iters)
-    else none
+    else if m.advGuard then some (Tree.fresh parts nA (H + m.overrun), H, iters) else none
 
 /-- one public call: prepare the root, run the simulations on the logged steps
     (`runSimulation`: `if ( !horizon ) return 0;` before anything is simulated) -/
@@ -475,11 +480,12 @@ def beliefTotal : List (Nat × Nat) → Nat
   | (_, c) :: rest => c + beliefTotal rest
 
 /-- `HeadBeliefNode::sampleBelief()` after the draw `pick` (uniform on `[1, beliefSize_]`):
-    `while (true) { pick -= sampleBelief_[index].second; if ( pick < 1 ) return sampleBelief_[index].first; ++index; }`.
+    `while (true) { pick -= sampleBelief_[index].second; if ( pick < sampleWalkStop ) return sampleBelief_[index].first; ++index; }`
+    (`sampleWalkStop` is read from the source by tools/extract_c19.py: 1).
     `none` = the walk leaves the vector (an out-of-bounds read in the C++ code). -/
 def sampleWalk : List (Nat × Nat) → Int → Option Nat
   | [], _ => none
-  | (s, c) :: rest, pick => if pick - (c : Int) < 1 then some s else sampleWalk rest (pick - (c : Int))
+  | (s, c) :: rest, pick => if pick - (c : Int) < Gen.C19.sampleWalkStop then some s else sampleWalk rest (pick - (c : Int))
 
 /-- the scan of `HeadBeliefNode::getMostCommonParticle()`: `bestGuessCount = 0`, move on `count > bestGuessCount`;
     `none` = `bestGuess` was never assigned (the function then returns an uninitialised value) -/
